@@ -16,6 +16,27 @@ Theorem C01_sd_check_sound : forall (t : rtree) (H : list pterm) (d : sd),
 Proof. exact sd_check_sound. Qed.
 Print Assumptions C01_sd_check_sound.
 
+(* What sd_denote is: the list of the weights prod(lambda) * prod(gamma) (x) labels of the
+   consistent selections (one hyperedge per node, agreeing with the parent's hyperedge on the
+   vertex of the connecting edge), selection by selection; `sels` enumerates exactly those. *)
+Theorem C01_denote_is_selection_sum : forall (t : rtree) (d : sd),
+  sd_denote t d = map wt (sels (hes d) t None).
+Proof. exact (fun t d => val_selections t (hes d) None). Qed.
+Print Assumptions C01_denote_is_selection_sum.
+
+Theorem C01_selections_spec : forall (t : rtree) (s : list he) (pv : option oid) (sg : stree),
+  In sg (sels s t pv) <-> sel_ok s t pv sg.
+Proof. exact sels_spec. Qed.
+Print Assumptions C01_selections_spec.
+
+(* ... and the refuter too: it answers true only with a key on which the two sums differ, so a
+   diagram it rejects is not exact (used for the instances of the recorded findings). *)
+Theorem C01_sd_refute_sound : forall (t : rtree) (H : list pterm) (d : sd),
+  sd_refute t H d = true ->
+  ~ (forall k : key, (coef (sd_denote t d) k == coef (ham_denote t H) k)%Q).
+Proof. exact sd_refute_sound. Qed.
+Print Assumptions C01_sd_refute_sound.
+
 (* SingleTermDiagram.from_single_term: one hyperedge per node, one vertex per edge, the
    coefficient on the root hyperedge; for every tree with distinct identifiers it denotes
    exactly the term (list-wise, coefficients up to ==). *)
